@@ -181,7 +181,9 @@ def run(ck):
     it = r.interp
     utils = it.module('ioos_qc.utils')
     cf = utils.globals['cf_safe_name']
-    samples = ['temp', '9lives', '_x', 'a-b', 'a b.c', 'sea water/temp(1)', 'ünï', '1', 'a.qartod.gross_range_test', '5.qartod.t', 'A_1', '']
+    samples = ['temp', '9lives', '_x', 'a-b', 'a b.c', 'sea water/temp(1)', 'ünï', '1', 'a.qartod.gross_range_test', '5.qartod.t', 'A_1', '',
+               # names outside ASCII, in front of a digit or a legal character (a dropped character would expose what follows it)
+               '\u03c30', '\u03b413C', '\u00e9', '\u00b5mol', '\u6c34\u6e29', '\u03c3_t', 'O\u2082', 'a\u00a0b', '\u00c50']
     for s in samples:
         try:
             got = it.call(cf, [s], {}, None)
